@@ -38,6 +38,7 @@ class Ty(object):
 
 
 EMPTY = Ty()
+_PROTOCOLS = {}
 SEQ_WORDS = ('list', 'List', 'Sequence', 'MutableSequence', 'Iterable', 'Iterator', 'set', 'Set', 'frozenset')
 MAP_WORDS = ('dict', 'Dict', 'Mapping', 'MutableMapping')
 
@@ -58,6 +59,8 @@ def _ty(node, known):
     if isinstance(node, ast.Constant) and isinstance(node.value, str):
         return parse_type(node.value, known)
     if isinstance(node, ast.Name):
+        if node.id in _PROTOCOLS:
+            return Ty(_PROTOCOLS[node.id])
         return Ty([node.id]) if node.id in known else EMPTY
     if isinstance(node, ast.Attribute):
         if unparse(node.value) in ('ast', 't', 'typing'):
@@ -120,6 +123,17 @@ class CallGraph(object):
         self.repo = repo
         self.facts = get_facts(repo)
         self.known = set(n for n, c in self.facts.classes.items() if not _type_only(c.node))
+        # typing.Protocol classes declared for the type checker only: a receiver typed with one may be any runtime
+        # class that provides all of the protocol's members (structural typing)
+        self.protocols = {}
+        for n, c in self.facts.classes.items():
+            if _type_only(c.node) and any('Protocol' in b for b in c.base_names):
+                members = [m for m in c.methods]
+                if members:
+                    impl = [k for k in self.known if all(self.facts.classes[k].provides(m) for m in members)]
+                    self.protocols[n] = impl
+        global _PROTOCOLS
+        _PROTOCOLS = self.protocols
         self.sig = {}        # FuncInfo.key -> (param name -> Ty, return Ty)
         self.attr_ty = {}    # class name -> {attr: Ty}
         self.edges = {}      # key -> list of (callee key, typed: bool, node)
